@@ -1,5 +1,6 @@
 import GrinVerif.Lemmas.BitmapScratch
 import GrinVerif.Lemmas.BitmapBits
+import GrinVerif.Lemmas.BitmapAsBitmap
 /-! # C15 — the committed unspent-output bitmap is independent of the path taken
 
 Property theorems only (lemmas in `Lemmas/Bitmap*.lean`, model in `Model/Bitmap.lean`).
@@ -31,6 +32,17 @@ theorem scratch_chunk_bits (U : List Nat) (c i : Nat) (hc : c < nChunks U) (hi :
     ((specData U)[c]'(by rw [specData_length]; exact hc)).testBit i = decide (c * 1024 + i ∈ U) := by
   simp only [specData, List.getElem_map, List.getElem_range]
   exact chunkOf_testBit U c i hi
+
+/-- The from-scratch accumulator commits to exactly the unspent set: `as_bitmap` returns `U`. -/
+theorem scratch_as_bitmap (hf : HashFn Nat H) (U : List Nat) (size : Nat)
+    (hs : U.Pairwise (· < ·)) (hlt : ∀ x ∈ U, x < size) (hsz : size ≤ 2 ^ 64) :
+    ∃ st, fromScratch hf U size = some st ∧ asBitmap st = some U := by
+  have hb : (specData U).length ≤ 2 ^ 64 := by
+    rw [specData_length]; exact nChunks_le_pow U size hlt hsz
+  obtain ⟨hsh, h1, h2⟩ := ofData_some hf (specData U) hb
+  refine ⟨{ data := specData U, hashes := hsh }, ?_, ?_⟩
+  · rw [fromScratch, init_ofData hf U size (pairwise_le_of_lt hs) hlt, h1]
+  · exact asBitmap_specData U hs hsh (by simpa [specData_length] using h2)
 
 /-- The accumulator rebuilt when the node restarts is the from-scratch accumulator of the leaf set. -/
 theorem reopen_eq_scratch (hf : HashFn Nat H) (o : OutputPmmr) :
@@ -217,12 +229,34 @@ theorem history_eq_scratch (hf : HashFn Nat H) : ∀ (steps : List Step) (U0 : L
       simp only [run, finalU, finalSize, hidx, hi, hstep, h1]
       exact ih s.U s.size st1 h1 hs hlt hsz hrest
 
+/-- … hence after every such history the accumulator exists and `as_bitmap` returns exactly the
+final unspent set. -/
+theorem history_as_bitmap (hf : HashFn Nat H) (steps : List Step) (U0 : List Nat) (size0 : Nat) (st0 : Acc H)
+    (hprev : fromScratch hf U0 size0 = some st0)
+    (hs0 : U0.Pairwise (· < ·)) (hlt0 : ∀ x ∈ U0, x < size0) (hsz0 : size0 ≤ 2 ^ 64)
+    (hok : HistoryOk U0 steps) :
+    ∃ st, run hf st0 steps = some st ∧ asBitmap st = some (finalU U0 steps) := by
+  have hfin : ∀ (steps : List Step) (U0 : List Nat) (size0 : Nat),
+      U0.Pairwise (· < ·) → (∀ x ∈ U0, x < size0) → size0 ≤ 2 ^ 64 → HistoryOk U0 steps →
+      (finalU U0 steps).Pairwise (· < ·) ∧ (∀ x ∈ finalU U0 steps, x < finalSize size0 steps) ∧
+        finalSize size0 steps ≤ 2 ^ 64 := by
+    intro steps
+    induction steps with
+    | nil => intro U0 size0 a b c _; exact ⟨a, b, c⟩
+    | cons s ss ih =>
+      intro U0 size0 _ _ _ hok
+      obtain ⟨⟨_, _, hsz, hs, hlt, _, _⟩, hrest⟩ := hok
+      exact ih s.U s.size hs hlt hsz hrest
+  obtain ⟨a, b, c⟩ := hfin steps U0 size0 hs0 hlt0 hsz0 hok
+  rw [history_eq_scratch hf steps U0 size0 st0 hprev hs0 hlt0 hsz0 hok]
+  exact scratch_as_bitmap hf _ _ a b c
+
 /-! ## The hypothesis is needed -/
 
 /-- **Counter-example without the hypothesis.** Outputs `{5, 2100}` unspent among 2500; spend
 2100 (the whole last chunk becomes spent, the last leaf 2499 was spent all along). The
-incremental update keeps two chunks (the second one empty, appended by `pad_left`-style
-truncation), computation from scratch over `{5}` gives one chunk: different accumulators, and
+incremental update truncates to the two chunks before chunk 2 (the second one empty) and
+`apply_from` then appends nothing; computation from scratch over `{5}` gives one chunk: different accumulators, and
 different roots `H(2 | H(0|c) | H(1|0…0))` vs `H(0|c)` for every hash function that does not
 collide on this pair. The harness replays this history on the real `BitmapAccumulator`
 (`bitmap cex …`): the real roots differ as well. -/
